@@ -23,10 +23,15 @@ def case_key(case):
     return hashlib.sha1(json.dumps(case, sort_keys=True, default=str).encode()).hexdigest()[:16]
 
 
+def foreign(prop, failure):
+    """a failure kind that states another property than the one being checked"""
+    return str(failure.get("kind", "")).startswith("argument-mutated") and prop.upper() != "C19"
+
+
 def run(prop, tier, seed, shard, nshards, budget_s=None):
     mod = importlib.import_module(f"bounded.{prop.lower()}")
     t0 = time.time()
-    out = {"evaluations": 0, "keys": [], "samples": [], "failures": [], "errors": [],
+    out = {"evaluations": 0, "keys": [], "samples": [], "failures": [], "errors": [], "notes": [],
            "truncated": False, "hashseed": os.environ.get("PYTHONHASHSEED", "random")}
     keys = set()
     for i, case in enumerate(mod.cases(tier, seed)):
@@ -48,6 +53,11 @@ def run(prop, tier, seed, shard, nshards, budget_s=None):
         if len(out["samples"]) < 2:
             out["samples"].append(case)
         for f in r.get("failures", []):
+            if foreign(prop, f):
+                # observed, but it is another property's statement (C19: no mutation of arguments): not this check's alarm
+                if len(out["notes"]) < 10:
+                    out["notes"].append({"kind": f.get("kind"), "msg": str(f.get("msg"))[:200], "belongs_to": "C19"})
+                continue
             if len(out["failures"]) < 40:
                 f = dict(f)
                 f["case"] = case
